@@ -38,6 +38,10 @@ pub struct Case {
     /// ("after_op" selects the between-op points). Generated cases always enumerate everything.
     #[serde(default)]
     pub focus: Option<String>,
+    /// File engine only: after the first recovery re-apply just one chunk, crash a second time (the state
+    /// machine object is leaked without Drop: only what reached the files survives) and recover again.
+    #[serde(default)]
+    pub second_crash: bool,
 }
 
 #[derive(Clone, Debug, Serialize, Deserialize)]
@@ -288,8 +292,8 @@ impl Check for C15 {
         vec!["engine_file", "engine_rocksdb", "has_flush_op", "nonidempotent_tail", "nontrivial"]
     }
     fn strategy(&self, _tier: Tier) -> BoxedStrategy<Case> {
-        (prop_oneof![3 => Just(Engine::File), 1 => Just(Engine::Rocks)], prop::collection::vec(op_s(), 1..=6), prop_oneof![Just(0u8), 1u8..=4])
-            .prop_map(|(engine, ops, reapply_chunk)| Case { engine, ops, reapply_chunk, focus: None })
+        (prop_oneof![3 => Just(Engine::File), 1 => Just(Engine::Rocks)], prop::collection::vec(op_s(), 1..=6), prop_oneof![Just(0u8), 1u8..=4], any::<bool>())
+            .prop_map(|(engine, ops, reapply_chunk, second_crash)| Case { engine, ops, reapply_chunk, focus: None, second_crash: second_crash && engine == Engine::File })
             .boxed()
     }
 
@@ -397,6 +401,14 @@ impl Check for C15 {
                 })
                 .map(|f| (0..=f).filter_map(|i| ranges[i]).map(|r| r.1).max().unwrap_or(0) as u64)
                 .unwrap_or(0);
+            // single-crash run first; the double-crash run (own child process) only where the single one is clean,
+            // so that a failure there is attributable to the second crash
+            let modes: &[bool] = if c.second_crash && c.engine == Engine::File { &[false, true] } else { &[false] };
+            let mut point_failed = false;
+            for &second in modes {
+            if second && point_failed {
+                continue;
+            }
             let dir = work_dir("c15");
             let spec = Spec { engine: c.engine, dir: dir.clone(), ops: c.ops.clone(), crash: p.crash.clone() };
             let spec_path = spec_file(&dir);
@@ -427,9 +439,31 @@ impl Check for C15 {
                     )));
                 }
                 // re-apply (a', N]
-                let rest = &log[a as usize..];
+                let mut rest = &log[a as usize..];
                 // (a Big op would otherwise be re-applied in hundreds of tiny chunks)
                 let step = if c.reapply_chunk == 0 { rest.len().max(1) } else if rest.len() > 200 { 400 + c.reapply_chunk as usize } else { c.reapply_chunk as usize };
+                let mut sm = sm;
+                if second {
+                    // second crash before any checkpoint: re-apply one (short) chunk, lose the process, recover again
+                    let first = &rest[..rest.len().min(step.min(2))];
+                    if !first.is_empty() {
+                        let entries = to_entries(first, false);
+                        sm.apply_chunk(&entries).await.map_err(|e| format!("re-apply before second crash: {e:?}"))?;
+                    }
+                    std::mem::forget(sm);
+                    sm = match open_sm(c.engine, &dir).await {
+                        Ok(s) => s,
+                        Err(e) => return Ok(Some((format!("C15:{}-cannot-reopen-after-second-crash", c.engine.name()), format!("crash {} then a second crash: {e}", describe(p))))),
+                    };
+                    let a2 = sm.last_applied().index;
+                    if a2 as usize > n {
+                        return Ok(Some((
+                            format!("C15:{}-applied-index-beyond-log", c.engine.name()),
+                            format!("crash {} then a second crash: reopened state machine reports last_applied={} > {} committed entries", describe(p), a2, n),
+                        )));
+                    }
+                    rest = &log[a2 as usize..];
+                }
                 for ch in rest.chunks(step) {
                     let entries = to_entries(ch, false);
                     sm.apply_chunk(&entries).await.map_err(|e| format!("re-apply: {e:?}"))?;
@@ -438,9 +472,10 @@ impl Check for C15 {
                 drop(sm);
                 if fin != states[n] {
                     let bad: Vec<Vec<u8>> = keys().into_iter().filter(|k| fin.get(k) != states[n].get(k)).collect();
-                    let sig = classify(c.engine, p.name, a, &s0, &states, &bad, prev_persisted);
+                    let sig = if second { format!("C15:{}-state-lost-by-second-crash-before-checkpoint", c.engine.name()) } else { classify(c.engine, p.name, a, &s0, &states, &bad, prev_persisted) };
                     let detail = format!(
-                        "crash {}: reopened with last_applied={} and contents {} (model(1..={}) = {}); after re-applying entries {}..={} contents are {} but model(1..={}) = {}",
+                        "{}crash {}: reopened with last_applied={} and contents {} (model(1..={}) = {}); after re-applying entries {}..={} contents are {} but model(1..={}) = {}",
+                        if second { "(double-crash run: after the first recovery one chunk was re-applied, then the process was lost again without a checkpoint) " } else { "" },
                         describe(p),
                         a,
                         show_map(&s0),
@@ -462,12 +497,17 @@ impl Check for C15 {
             match res {
                 Err(e) => panic!("C15 harness error after crash {}: {e}", describe(p)),
                 Ok(Some(v)) => {
+                    point_failed = true;
                     if !violations.iter().any(|x| x.0 == v.0) {
                         violations.push(v);
                     }
                 }
                 Ok(None) => {}
             }
+            } // modes
+        }
+        if c.second_crash {
+            out.add_label("second_crash_before_checkpoint");
         }
         out.count("crash_points_executed", executed);
         out.count(&format!("crash_points_{}", c.engine.name()), executed);
